@@ -265,6 +265,12 @@ func vfGenesisPath() string {
 // vfMakeEpoch generates a CAR and indexes it in a child process. indexErr is the error reported by
 // the repository's index generation ("" when it reported success).
 func vfMakeEpoch(dir string, o cargen.Opts, withGsfa bool) (fx *vfEpochFx, indexErr string, err error) {
+	return vfMakeEpochTmp(dir, o, withGsfa, filepath.Join(dir, "tmp"))
+}
+
+// vfMakeEpochTmp: as vfMakeEpoch with the indexers' scratch directory given (several runs may share one, as
+// several `index` commands started with the same --tmp-dir do).
+func vfMakeEpochTmp(dir string, o cargen.Opts, withGsfa bool, tmpDir string) (fx *vfEpochFx, indexErr string, err error) {
 	if err := os.MkdirAll(dir, 0o755); err != nil {
 		return nil, "", err
 	}
@@ -274,7 +280,7 @@ func vfMakeEpoch(dir string, o cargen.Opts, withGsfa bool) (fx *vfEpochFx, index
 		return nil, "", err
 	}
 	fx.Model = m
-	r := vfRunChild("index", vfIndexArgs{Car: fx.CarPath, IdxDir: filepath.Join(dir, "idx"), TmpDir: filepath.Join(dir, "tmp"), Epoch: o.Epoch, Gsfa: withGsfa}, 20*time.Minute)
+	r := vfRunChild("index", vfIndexArgs{Car: fx.CarPath, IdxDir: filepath.Join(dir, "idx"), TmpDir: tmpDir, Epoch: o.Epoch, Gsfa: withGsfa}, 20*time.Minute)
 	if r.ExitErr != nil && r.Result == nil && r.Err == "" {
 		return fx, "", fmt.Errorf("index child died: %v\n%s", r.ExitErr, r.Output)
 	}
